@@ -120,6 +120,16 @@ REPRESENTATIVES = [
     ("tag2", Tag(2, b"\x01")),
     ("null", None), ("true", True), ("false", False), ("undefined", Simple(23)), ("simple0", Simple(0)),
     ("float", 1.5), ("nan", NAN), ("inf", float("inf")),
+    # tags for which the CBOR library has semantic decoders: the parser receives sets, fractions, decimals, dates, UUIDs,
+    # patterns, addresses ... instead of plain containers and scalars
+    ("tag258-set-empty", Tag(258, [])), ("tag258-set", Tag(258, [1, 2])), ("tag30-rational", Tag(30, [1, 3])),
+    ("tag4-decimal", Tag(4, [-2, 27315])), ("tag5-bigfloat", Tag(5, [1, 3])), ("tag0-datetime", Tag(0, "2024-01-01T00:00:00Z")),
+    ("tag1-epoch", Tag(1, 1700000000)), ("tag100-date", Tag(100, 19000)), ("tag1004-date", Tag(1004, "2024-01-01")),
+    ("tag37-uuid", Tag(37, bytes(range(16)))), ("tag35-regex", Tag(35, "a+")), ("tag36-mime", Tag(36, "X: y\n\nz")),
+    ("tag260-ipaddress", Tag(260, b"\x7f\x00\x00\x01")), ("tag261-network", Tag(261, {24: b"\xc0\xa8\x00\x00"})),
+    ("tag43000-complex", Tag(43000, [1.0, 2.0])), ("tag55799-self-described", Tag(55799, 0)),
+    ("tag28-shareable", Tag(28, [1])), ("tag29-sharedref-dangling", Tag(29, 0)), ("tag25-stringref-dangling", Tag(25, 0)),
+    ("tag256-stringref-ns", Tag(256, ["a", Tag(25, 0)])),
     # big VALUES (not big structures): work and memory must follow the input size, not value * size
     ("big-bignum-4k", Tag(2, b"\xff" * 4096)), ("big-negative-bignum-1k", Tag(3, b"\xaa" * 1024)),
     ("big-bstr-16k", b"\x5a" * 16384), ("big-tstr-16k", "y" * 16384),
